@@ -9,6 +9,8 @@ import subprocess
 import common as C
 
 GLUE = os.path.join(C.ROOT, "glue")
+GTARGET = os.path.join(C._SCRATCH, "glue-target") if C._SCRATCH else os.path.join(GLUE, "target")
+GT = ["--target-dir", GTARGET] if C._SCRATCH else []
 
 
 def ident(m):
@@ -16,8 +18,23 @@ def ident(m):
     return ("r#" + n) if m.get("raw") else n
 
 
+ATTR = {"none": "#[tarpc::service]", "derive": "#[tarpc::service(derive = [Clone, PartialEq])]",
+        "serde_false": "#[tarpc::service(derive_serde = false)]",
+        "both": "#[tarpc::service(derive = [Clone], derive_serde = false)]",
+        "twice": "#[tarpc::service(derive = [Clone], derive = [PartialEq])]"}
+
+
 def arg_names(m):
     return ["ctx"] if m["argty"] == "ctx" else ["a%d" % i for i in range(m["nargs"])]
+
+
+def arg_list(m):
+    """argument list as written in the trait (rejected shapes may use forms the macro refuses)"""
+    if m["argty"] == "pattern":
+        return "(a0, a1): (i32, i32)"
+    if m["argty"] == "selfarg":
+        return "self, a0: i32"
+    return ", ".join("%s: %s" % (n, t) for n, t in zip(arg_names(m), arg_types(m)))
 
 
 def arg_types(m):
@@ -32,9 +49,9 @@ def ret_type(m):
     return {"unit": "()", "int": "i32", "str": "String"}[m["ret"]]
 
 
-def gen_service(k, methods):
+def gen_service(k, methods, attr="none"):
     """Rust module for accepted service k."""
-    lines = ["mod s%d {" % k, "    use super::*;", "    #[tarpc::service]", "    pub trait Svc%d {" % k]
+    lines = ["mod s%d {" % k, "    use super::*;", "    " + ATTR[attr], "    pub trait Svc%d {" % k]
     for m in methods:
         args = ", ".join("a%d: %s" % (i, t) for i, t in enumerate(arg_types(m)))
         ret = "" if m["ret"] == "unit" else " -> %s" % ret_type(m)
@@ -87,7 +104,7 @@ def gen_service(k, methods):
 
 
 MAIN_HEAD = r'''// generated by /verif/tools/glue.py -- do not edit
-#![allow(non_camel_case_types, non_snake_case, unused_imports, dead_code, clippy::all)]
+#![allow(non_camel_case_types, non_snake_case, unused_imports, dead_code, deprecated, clippy::all)]
 use futures::prelude::*;
 use serde_json::json;
 use std::sync::atomic::{AtomicU64, Ordering};
@@ -112,7 +129,7 @@ fn emit(ev: &str, mut v: serde_json::Value) {
 def gen_main(accepted):
     parts = [MAIN_HEAD]
     for k, sc in accepted:
-        parts.append(gen_service(k, sc["cfg"]["methods"]))
+        parts.append(gen_service(k, sc["cfg"]["methods"], sc["cfg"].get("attr", "none")))
     parts.append("#[tokio::main(flavor = \"current_thread\")]\nasync fn main() {\n    base();")
     for k, sc in accepted:
         meths = [{"name": "".join(m["name"]), "raw": bool(m.get("raw"))} for m in sc["cfg"]["methods"]]
@@ -125,10 +142,10 @@ def gen_main(accepted):
     return "\n".join(parts) + "\n"
 
 
-def gen_rejected(k, methods):
-    lines = ["#![allow(non_camel_case_types, non_snake_case, dead_code)]", "#[tarpc::service]", "pub trait Rej%d {" % k]
+def gen_rejected(k, methods, attr="none"):
+    lines = ["#![allow(non_camel_case_types, non_snake_case, dead_code, deprecated)]", ATTR[attr], "pub trait Rej%d {" % k]
     for m in methods:
-        args = ", ".join("%s: %s" % (n, t) for n, t in zip(arg_names(m), arg_types(m)))
+        args = arg_list(m)
         ret = "" if m["ret"] == "unit" else " -> %s" % ret_type(m)
         lines.append("    async fn %s(%s)%s;" % (ident(m), args, ret))
     lines += ["}", "fn main() {}"]
@@ -148,17 +165,17 @@ def run_glue(wd, scheds, seed, tier):
         f.write(gen_main(accepted))
     for k, s in rejected:
         with open(os.path.join(src, "bin", "rej%d.rs" % k), "w") as f:
-            f.write(gen_rejected(k, s["cfg"]["methods"]))
+            f.write(gen_rejected(k, s["cfg"]["methods"], s["cfg"].get("attr", "none")))
     env = dict(os.environ, CARGO_NET_OFFLINE="true")
     trace = os.path.join(wd, "glue-run.ndjson")
     lines = []
     # accepted: build + run
-    p = subprocess.run(["cargo", "build", "--offline", "--bin", "glue"] + C.repo_override(), cwd=GLUE, env=env,
+    p = subprocess.run(["cargo", "build", "--offline", "--bin", "glue"] + C.repo_override() + GT, cwd=GLUE, env=env,
                        stdout=subprocess.PIPE, stderr=subprocess.STDOUT, text=True)
     if p.returncode != 0:
         C.log(p.stdout[-3000:])
         raise C.ToolError("generated glue program (accepted shapes) failed to compile")
-    r = subprocess.run([os.path.join(GLUE, "target", "debug", "glue")], stdout=subprocess.PIPE, stderr=subprocess.PIPE,
+    r = subprocess.run([os.path.join(GTARGET, "debug", "glue")], stdout=subprocess.PIPE, stderr=subprocess.PIPE,
                        text=True, timeout=600)
     if r.returncode != 0:
         C.log(r.stderr[-2000:])
@@ -166,7 +183,7 @@ def run_glue(wd, scheds, seed, tier):
     lines += [l for l in r.stdout.splitlines() if l.startswith("{")]
     # rejected: each must fail to compile
     if rejected:
-        p = subprocess.run(["cargo", "check", "--offline", "--bins", "--keep-going", "--message-format", "short"] + C.repo_override(), cwd=GLUE, env=env,
+        p = subprocess.run(["cargo", "check", "--offline", "--bins", "--keep-going", "--message-format", "short"] + C.repo_override() + GT, cwd=GLUE, env=env,
                            stdout=subprocess.PIPE, stderr=subprocess.STDOUT, text=True)
         out = p.stdout
         seq = 10 ** 6
